@@ -86,7 +86,45 @@ def wellformed(p):
     return mk('wellformed', ints('v', n), pre, body)
 
 
-FAMILIES = {'wellformed': wellformed}
+class _Boom(Exception):
+    pass
+
+
+def raising(p):
+    """key mapper / split predicate / time mapper that raises on some items (v % 3 == 0): whatever the operator does with the exception
+    (let it propagate, or turn it into a mux error), no ill-formed event may be emitted at any boundary"""
+    kind, n = p['kind'], p['n']
+    pre = ['-2**40 <= v%d <= 2**40' % i for i in range(n)]
+
+    def f(i):
+        if i % 3 == 0:
+            raise _Boom(i)
+        return i % 2
+
+    def body(a):
+        items = list(a)
+        m = Monitor()
+        inner = [m.tap('in:0'), rs.ops.identity(), m.tap('in:1')]
+        if kind == 'split':
+            op = rs.data.split(f, inner)
+        elif kind == 'group':
+            op = rs.ops.group_by(f, inner)
+        else:
+            op = rs.data.time_split(lambda i: (f(i), i)[1], inactive_timeout=2, pipeline=inner)
+        pipe = [m.tap('out:0'), op, m.tap('out:1'), rs.error.ignore(), m.tap('out:2')]
+        if p.get('parent') == 'roll':
+            pipe = [rs.data.roll(2, 2, pipe)]
+        try:
+            D.src(items).pipe(rs.state.with_memory_store(pipe)).subscribe(on_next=lambda i: None, on_error=lambda e: None)
+        except _Boom:
+            pass            # the exception of the user function propagated out of subscribe(): nothing ill-formed was emitted
+        # only events actually delivered are judged (a run cut short by a propagating exception never completes)
+        fl = m.flags()
+        return (not fl) or fail(kind=kind, items=items, flags=fl[:5])
+    return mk('raising_' + kind, ints('v', n), pre, body)
+
+
+FAMILIES = {'wellformed': wellformed, 'raising': raising}
 
 LEAFS = [[['to_list_sum']], [['filter_even'], ['count_r']], [['identity']], [['take1'], ['last']]]
 
@@ -141,5 +179,8 @@ def obligations(tier, seed):
             if n and br ** n > (100 if q else 600):
                 n -= 1
             obs.append(Ob(PROP, 'wellformed', dict(desc=d, n=n), budget=b, group='programs', bound=dict(items=n, pipeline=C.show(d))))
+    for kind in ('split', 'group', 'tsplit'):
+        for parent in (None, 'roll'):
+            obs.append(Ob(PROP, 'raising', dict(kind=kind, n=3 if q else 4, parent=parent), budget=b, group='raising user function', bound=dict(items=3 if q else 4, operator=kind, parent=parent)))
     obs.append(Ob(PROP, 'wellformed', dict(desc=[['roll', 3, 2, [['to_list_sum']]]], n=4, _twin='reach'), budget=60, expect='refute'))
     return obs
